@@ -39,19 +39,21 @@ type failure struct {
 type batch struct {
 	name    string
 	prelude string
+	extra   map[string]string // further files of the program (grammar frames with helper packages)
 	units   []*unit
 }
 
 func (b *batch) prog(units []*unit) (*Prog, error) {
 	if len(units) > 0 && units[0].kind == "shape" {
 		var sb strings.Builder
+		sb.WriteString(units[0].shape.Hdr) // the same for every shape of a file (see buildBatches)
 		for _, u := range units {
 			sb.WriteString(u.shape.Src)
 			sb.WriteString("\n")
 		}
 		return progFromSource("shape:"+units[0].shape.Family, sb.String())
 	}
-	p := &Prog{Prelude: b.prelude}
+	p := &Prog{Prelude: b.prelude, Extra: b.extra}
 	for _, u := range units {
 		p.Fns = append(p.Fns, u.fn)
 	}
@@ -420,7 +422,7 @@ func (ck *checker) failing(b *batch, u *unit, m *mismatch) {
 			mm     *mismatch
 			minSrc string
 		)
-		for _, cand := range []string{pruneDecls(s.Src), s.Src} {
+		for _, cand := range []string{pruneDecls(s.Hdr + s.Src), s.Hdr + s.Src} {
 			p1, err := progFromSource("shape:"+s.Family, cand)
 			if err != nil {
 				continue
@@ -484,7 +486,7 @@ func (ck *checker) failing(b *batch, u *unit, m *mismatch) {
 	if u.kind == "grammar" {
 		minFn, minM, corePaths = ck.minimise(b, u, m)
 	}
-	one := &Prog{Prelude: b.prelude, Fns: []Fn{minFn}}
+	one := &Prog{Prelude: b.prelude, Extra: b.extra, Fns: []Fn{minFn}}
 	norm := strings.Replace(minFn.Src, "func "+minFn.Name+"(", "func F(", 1)
 	feat := "grammar-" + minFn.Feature + "/" + strings.Join(minFn.Paths, "+")
 	if len(feat) > 90 {
@@ -521,7 +523,7 @@ func (ck *checker) minimise(b *batch, u *unit, m *mismatch) (Fn, mismatch, []str
 			return Fn{}, mismatch{}, false
 		}
 		ck.nMinRun.Inc()
-		ev := evalProg(&Prog{Prelude: b.prelude, Fns: []Fn{fn}}, false)
+		ev := evalProg(&Prog{Prelude: b.prelude, Extra: b.extra, Fns: []Fn{fn}}, false)
 		if ev.NeoErr != "" || ev.GoErr != "" {
 			return Fn{}, mismatch{}, false
 		}
@@ -780,7 +782,7 @@ func (ck *checker) buildBatches(thorough bool, stats map[string]any) []*batch {
 	for _, f := range fams {
 		us := byFam[f]
 		per := 60
-		if f == "control" {
+		if f == "control" || f == "longjump" || f == "opassign" || f == "bools" {
 			per = 240 // small functions without helpers, none of which the compiler rejects
 		}
 		for i := 0; i < len(us); i += per {
@@ -810,13 +812,15 @@ func (ck *checker) buildBatches(thorough bool, stats map[string]any) []*batch {
 		{frameI(thorough), vk.Pick(ck.r, 3, 3), 2},
 		{frameC(thorough), vk.Pick(ck.r, 2, 3), 2},
 		{frameS(thorough), vk.Pick(ck.r, 2, 3), 2},
+		{frameN(thorough), vk.Pick(ck.r, 3, 3), 2}, // gen2_test.go
+		{frameL(thorough), vk.Pick(ck.r, 3, 3), 2},
 	}
 	var alpha []string
 	enumerated, rejected := map[string]int{}, map[string]int{}
 	maxSize := 0
 	for _, f := range frames {
 		note := ""
-		if !thorough && f.fr.name == "I" {
+		if !thorough && (f.fr.name == "I" || f.fr.name == "L" || f.fr.name == "N") {
 			note = " (bodies of 3 nodes: only those nested as a chain)"
 		}
 		alpha = append(alpha, fmt.Sprintf("frame %s: %d atoms, %d compound productions, %d conditions, <=%d nodes, nesting <=%d%s",
@@ -832,7 +836,7 @@ func (ck *checker) buildBatches(thorough bool, stats map[string]any) []*batch {
 			}
 			var us []*unit
 			n := 0
-			chainOnly := !thorough && f.fr.name == "I" && size == 3 // quick: at three nodes only the nesting chains
+			chainOnly := !thorough && (f.fr.name == "I" || f.fr.name == "L" || f.fr.name == "N") && size == 3 // quick: at three nodes only the nesting chains
 			f.fr.enumerate(size, f.depth, func(body []*node) {
 				if chainOnly && !isChain(body) {
 					return
@@ -850,9 +854,21 @@ func (ck *checker) buildBatches(thorough bool, stats map[string]any) []*batch {
 			})
 			for i := 0; i < len(us); i += batchSize {
 				j := min(i+batchSize, len(us))
-				batches = append(batches, &batch{name: fmt.Sprintf("%s%d#%d", f.fr.name, size, i/batchSize), prelude: f.fr.prelude, units: us[i:j]})
+				batches = append(batches, &batch{name: fmt.Sprintf("%s%d#%d", f.fr.name, size, i/batchSize), prelude: f.fr.prelude, extra: f.fr.extra, units: us[i:j]})
 			}
 		}
+	}
+	if only := os.Getenv("C14_ONLY"); only != "" { // development aid: run only the files whose name contains one of the comma-separated substrings
+		var kept []*batch
+		for _, b := range batches {
+			for _, o := range strings.Split(only, ",") {
+				if strings.Contains(b.name, o) {
+					kept = append(kept, b)
+					break
+				}
+			}
+		}
+		batches = kept
 	}
 	seq := 0
 	for _, b := range batches {
@@ -948,6 +964,9 @@ func TestCheck(t *testing.T) {
 		"cpu_ms_reference_build_and_run":                int(tGo.Get()),
 		"cpu_ms_reference_build":                        int(tGoBuild.Get()),
 		"cpu_ms_vm_runs":                                int(tVM.Get()),
+		"generated_code":                                cstats.report(),
+		"manifest_method_sets_compared":                 int(nMetaSets.Get()),
+		"debug_info_ranges_checked":                     int(nMetaRanges.Get()),
 	}
 	for k, v := range stats {
 		cov[k] = v
